@@ -190,3 +190,12 @@ func (n *Node) VTimerIsSet() bool { return n.controlTimer.isSet }
 // VSelfSigPool exposes the pool of own block signatures waiting for the next
 // self-event (used to play a validator that gossips adversarial signatures).
 func (n *Node) VSelfSigPool() *hg.SigPool { return n.core.selfBlockSignatures }
+
+// VBabbleLoop runs the real babbling loop (Node.babble with gossip enabled) until the node leaves it, with the
+// control timer's own run loop started on the given initial timeout; the harness supplies the timer factory
+// beforehand (VSetTimerFactory). Returns when babble() returns.
+func (n *Node) VBabbleLoop() {
+	go n.controlTimer.run(n.conf.HeartbeatTimeout)
+	n.babble(true)
+	n.controlTimer.shutdown()
+}
